@@ -115,7 +115,7 @@ def flatten(dump):
         if ix.get("res") == "ok":
             out[b + "/count"] = ix.get("count")
             out[b + "/offset"] = ix.get("offset")
-            for i, e in enumerate(ix.get("entries", [])):
+            for i, e in enumerate(ix.get("entries", []), ix.get("entriesFrom", 0)):
                 e = norm_entry(e)
                 if "values" in e:
                     out["%s/%d/variant" % (b, i)] = e["variant"]
